@@ -14,6 +14,7 @@ import (
 	"log"
 	"os"
 	"path/filepath"
+	"sort"
 	"strconv"
 	"strings"
 	"sync"
@@ -189,6 +190,22 @@ func runDB(dir string, s sess.Session) {
 			}
 		case "mark":
 			mark(op.Text)
+		case "corrupt":
+			// damage on disk while the database is open: one bit of the last byte of the oldest table's data file
+			tabs, _ := filepath.Glob(filepath.Join(dir, "sstable_0*"))
+			sort.Strings(tabs)
+			if len(tabs) == 0 {
+				fatal(fmt.Errorf("corrupt: no table"))
+			}
+			p := filepath.Join(tabs[0], "data.rio")
+			b, rerr := os.ReadFile(p)
+			if rerr != nil || len(b) < 9 {
+				fatal(fmt.Errorf("corrupt: %v", rerr))
+			}
+			b[len(b)-1] ^= 0x01
+			if werr := os.WriteFile(p, b, 0o644); werr != nil {
+				fatal(werr)
+			}
 		case "abandon":
 			// the handle is dropped without Close: the directory is left the way a stopped process leaves it
 			db = nil
